@@ -178,6 +178,71 @@ def anchor_rule(ctx, tbl):
           lambda x: 'year %d, new moon %d day(s) before the solstice day' % x, fn_site(p, 'LunarMonth::new'))
 
 
+def chain_rule(ctx, tbl, skip_reform=False):
+    """Lunar years tile only if the month-1 offsets of consecutive years agree with the month counts.
+
+    LunarMonth::new anchors year y on the lunation A(y) that contains the winter solstice of December y-1 (month 11 of year
+    y-1) and places month 1 at A(y) + offset(y).  Between two anchors lie month 11, 12 of year y-1 (plus a leap 11th/12th
+    month of y-1) and months 1..10 of year y (plus a leap month <= 10 of y), hence
+        A(y+1) - A(y) = 12 + [leap(y-1) in {11,12}] + [leap(y) in 1..10],
+    and month 1 of year y+1 directly follows the last month of year y exactly when
+        count(y) + offset(y) - offset(y+1) = A(y+1) - A(y).
+    Both sides are read from the source alone: count / leap from the stored table, offset(y) by evaluating the real
+    LunarMonth::new with the series stubbed by the identity (first day of month 1 = solstice + 29.5306 * offset)."""
+    from rlib import pmap
+    p = ctx.prog
+    ctx.rule('TILE-CHAIN', 'consecutive lunar years abut: count(y) + offset(y) - offset(y+1) = 12 + [leap(y-1) in 11..12] + [leap(y) in 1..10] for every year (table + month-1 offset logic)')
+    I2 = ctx.interp(fuel=10 ** 9)
+    t2 = T(I2)
+    I2.overrides['ShouXingUtil::calc_shuo'] = lambda I_, r, a: a[0]
+    I2.overrides['ShouXingUtil::calc_qi'] = lambda I_, r, a: a[0]
+    leap = {}
+    for m, ys in tbl.items():
+        for y in ys:
+            leap[y] = m
+    lm1 = py(t2.m(I2.call('LunarYear::from_year', [-1]), 'get_leap_month'))     # the year before the table is special-cased in the lookup itself
+    if lm1:
+        leap[-1] = lm1
+
+    def offset(y):
+        dz = t2.m(I2.call('SolarTerm::from_index', [y, 0]), 'get_cursory_julian_day')
+        lm = I2.call('LunarMonth::new', [y, 1]).v
+        first = t2.m(t2.m(lm, 'get_first_julian_day'), 'get_day') - 2451545.0
+        return round((first - dz) / 29.5306, 3)
+    years = list(range(0, 10000))
+    try:
+        offs = dict(zip(years, pmap(offset, years)))
+    except (Unanalysable, Bottom) as u:
+        ctx.unanalysable('TILE-CHAIN', 'TILE:LunarMonth::new:offsets', str(u))
+        return
+    reform = reform_years(p)
+    bad = []
+    skipped = 0
+    for y in range(0, 9999):
+        cnt = 13 if y in leap else 12
+        n = cnt + offs[y] - offs[y + 1]
+        in_reform = any(abs(y - r) <= 1 for r in reform)
+        if n not in (12, 13):
+            # astronomy alone: 12 or 13 new moons separate two winter solstices, whatever the months are called
+            if skip_reform and in_reform:
+                skipped += 1
+                continue
+            bad.append((y, 'span', 'lunar year %d (%d months, month-1 offset %g) and year %d (offset %g) cannot abut: the code places %g lunations between the solstice '
+                        'lunations of the two years, and two winter solstices are always 12 or 13 lunations apart' % (y, cnt, offs[y], y + 1, offs[y + 1], n)))
+            continue
+        if in_reform:
+            skipped += 1      # inside the code's own reform windows the month NUMBERS are historical: the table cannot tell which lunation holds the solstice
+            continue
+        want = 12 + (1 if leap.get(y - 1, 0) > 10 else 0) + (1 if 1 <= leap.get(y, 0) <= 10 else 0)
+        if n != want:
+            bad.append((y, 'leap-position', 'lunar year %d (%d months, month-1 offset %g) and year %d (offset %g) do not abut: the code places %g lunations between the '
+                        'solstice lunations, the stored leap months put %d there' % (y, cnt, offs[y], y + 1, offs[y + 1], n, want)))
+    for (y, kind, msg) in bad:
+        ctx.violation('TILE-CHAIN', 'TILE:LunarMonth::new:year-%d:%s' % (y, kind),
+                      msg + '; months around that new year overlap or leave a gap, so stepping does not abut and civil->lunar->civil is not the identity there', {'year': y}, 1)
+    ctx.ok('TILE-CHAIN', 9999 - len(bad), {'years_checked': 9999, 'reform_years_with_span_bound_only': skipped, 'reform_literals': sorted(reform), 'offset_histogram': dict((str(k), list(offs.values()).count(k)) for k in set(offs.values())), 'site': fn_site(p, 'LunarMonth::new')})
+
+
 def run(ctx, pid='C03'):
     ctx.exhaustive = False
     ctx.exhaustive_note = 'table rules are complete over the stored table; the stubbed-constructor rules use one sample year per leap-month position'
@@ -192,6 +257,8 @@ def run(ctx, pid='C03'):
         tbl = leap_table(I)
     except (Unanalysable, Bottom):
         tbl = None
+    if tbl is not None:
+        chain_rule(ctx, tbl, skip_reform=(pid == 'C04'))
     if pid == 'C04':
         from rules import shared as _sh
         ctx.include('month_records', _sh.month_records)
@@ -301,8 +368,8 @@ def run(ctx, pid='C03'):
     table(ctx, 'PETE-STUB', 'LunarMonth::new:stride', [(y, k) for y in (sample[4], common) for k in range(0, 11)], stride, lambda x: True,
           'inside a year month k+1 starts where month k ends: the seed stride of "this month" and "next month" is the same constant', str, fn_site(p, 'LunarMonth::new'))
 
-    ctx.not_decided.append('29/30-day lengths, abutting across lunar year boundaries, 353-385-day years: they depend on the new-moon series and the winter-solstice anchor (numeric)')
-    ctx.not_decided.append('the month chain is known to break at lunar years 8/9, 24/25 and 239/240 (hard-coded reform offsets); no structural rule in reach sees that')
+    ctx.not_decided.append('29/30-day lengths and 353-385-day years depend on the new-moon series (numeric); abutting across lunar years is decided only as the lunation-count identity of TILE-CHAIN')
+    ctx.not_decided.append('the month chain also breaks at lunar years 239/240 (inside a reform window, passes the 12-or-13 bound of TILE-CHAIN): not decided, DESIGN 10.3')
     ctx.assumptions.append('LunarYear::get_day_count / get_months container structure is decided on scenario calendars in C13')
     return ('the packed leap-month table (decoded by its own initialiser) checked for order, range, uniqueness and intercalation rhythm; the leap lookup for every year; '
             'real LunarMonth::new / next evaluated with the new-moon series stubbed for guards, month<->position maps (all 13 leap positions) and stride agreement')
